@@ -97,7 +97,9 @@ def handle (j : Json) : Except String Json := do
     | some nmaps =>
       if (resultJ (linearBuild rxns lv nmaps init)).compress == (resultJ (linearBuildI rxns lv maps init)).compress
       then "same" else "differs"
-  let common := [("helper", Json.arr helper.toArray), ("padded", Json.arr padded.toArray), ("isos", isos),
+  let padlen := Json.arr (maps.map fun km =>
+    Json.arr #[.str km.1, toJson (padLen (isosOf lv) rxns km.1)]).toArray
+  let common := [("padlen", padlen), ("helper", Json.arr helper.toArray), ("padded", Json.arr padded.toArray), ("isos", isos),
     ("enrich", Json.arr enrich.toArray), ("labelled", labelled), ("nat", Json.str nat)]
   match linearBuildI rxns lv maps init with
   | .error e => pure (Json.mkObj ([("err", errJ e)] ++ common))
